@@ -125,43 +125,97 @@ theorem crash_safe_any_start {U : Type} (C : Codec U) (hC : C.Lawful) (old new :
   · left; rw [h]; exact load_ser C hC old
   · right; rw [h]; exact load_ser C hC new
 
-/-- **every save of a history (process kill / write errors).** After any history of saves — each writing any
-document, each with or without a failing call (the write after any byte count) — from any file system whose
-store path shows the set `u0`: at every instant of the next save (again with any failing call) a process
-kill leaves the store path readable as exactly the set of the last save that reported success, or the new
-set. The directory may contain whatever the history left behind. -/
+/-- **every save of every history, across crashes and restarts.** A history is any list of saves, each
+writing any set, each with or without one failing call (the write after any byte count), each either
+running to its end or KILLED right after any statement — the process then restarts on whatever the
+directory holds (left-over temporary files included). From any file system whose store path shows `u0`
+(regular file or symbolic link, any stray files next to it), after any such history:
+(1) the store path loads to `u0` or to the set of one of the saves;
+(2) the next save **without a fault succeeds** and the store then loads to exactly the new set — no
+    left-over can block it (this is what "changes acknowledged before shutdown are written" needs from the
+    file system after earlier crashes);
+(3) at every instant of the next save, with any failing call, a kill leaves that previous set or the new one. -/
 theorem kill_safe_history {U : Type} (C : Codec U) (hC : C.Lawful) (u0 new : U)
     (prog : List Stmt) (hp : saveProg? = some prog) (fs0 : FS) (h0 : afterKill fs0 = some (C.ser u0))
-    (hist : List (U × Fault)) (fault : Fault) :
-    let docs := hist.map (fun p => (C.ser p.1, p.2))
+    (hist : List (U × Fault × Option Nat)) (fault : Fault) :
+    let evs : List SaveEv := hist.map (fun p => ⟨C.ser p.1, p.2.1, p.2.2⟩)
+    let fs1 := runSaves prog fs0 evs
     ∃ prev, (prev = u0 ∨ prev ∈ hist.map (·.1)) ∧
-      C.ser prev = lastSaved prog fs0 (C.ser u0) docs ∧
-      ∀ fs ∈ trace (C.ser new) fault prog 0 (startRun (runSaves prog fs0 docs)),
+      load C (afterKill fs1) = some prev ∧
+      (let r := finalRun (C.ser new) none none prog 0 (startRun fs1)
+       r.err = false ∧ load C (afterKill r.fs) = some new) ∧
+      ∀ fs ∈ trace (C.ser new) fault prog 0 (startRun fs1),
         load C (afterKill fs) = some prev ∨ load C (afterKill fs) = some new := by
   have : prog = progTempRename := by
     have := hp.symm.trans saveProg_is_tempRename; exact Option.some.inj this
   subst this
-  intro docs
-  have hk := history_kq fs0 (C.ser u0) docs h0
-  have hm := lastSaved_mem progTempRename fs0 (C.ser u0) docs
-  have hprev : ∃ prev, (prev = u0 ∨ prev ∈ hist.map (·.1)) ∧ C.ser prev = lastSaved progTempRename fs0 (C.ser u0) docs := by
-    rcases hm with h | h
+  intro evs fs1
+  obtain ⟨d, hd, hk⟩ := history_kq fs0 (C.ser u0) evs h0
+  have hprev : ∃ prev, (prev = u0 ∨ prev ∈ hist.map (·.1)) ∧ C.ser prev = d := by
+    rcases hd with h | h
     · exact ⟨u0, Or.inl rfl, h.symm⟩
-    · simp only [docs, List.map_map, List.mem_map] at h
+    · simp only [evs, List.map_map, List.mem_map] at h
       obtain ⟨p, hp1, hp2⟩ := h
       exact ⟨p.1, Or.inr (List.mem_map.mpr ⟨p, hp1, rfl⟩), by simpa using hp2⟩
   obtain ⟨prev, hpm, hps⟩ := hprev
-  refine ⟨prev, hpm, hps, ?_⟩
-  intro fs hfs
-  rw [← hps] at hk
-  rcases kill_tempRename_gen _ (C.ser prev) (C.ser new) hk fault fs hfs with h | h
-  · left; rw [h]; exact load_ser C hC prev
-  · right; rw [h]; exact load_ser C hC new
+  subst hps
+  refine ⟨prev, hpm, ?_, ?_, ?_⟩
+  · have : afterKill fs1 = some (C.ser prev) := hk
+    rw [this]; exact load_ser C hC prev
+  · have h := save_completes_gen fs1 (C.ser prev) (C.ser new) hk
+    refine ⟨h.1, ?_⟩
+    have : afterKill (finalRun (C.ser new) none none progTempRename 0 (startRun fs1)).fs = some (C.ser new) := h.2
+    rw [this]; exact load_ser C hC new
+  · intro fs hfs
+    rcases kill_tempRename_gen _ (C.ser prev) (C.ser new) hk fault fs hfs with h | h
+    · left; rw [h]; exact load_ser C hC prev
+    · right; rw [h]; exact load_ser C hC new
+
+/-- **temp-name freshness** (the hypothesis about `os.CreateTemp` with a `*` pattern, built into `createTemp`
+of the model and tied to the source by the extractor, which maps only `os.CreateTemp(dir, "…*…")` to it):
+the name it yields is not in the directory and is not the fixed name `<store>.tmp`. -/
+theorem createTemp_name_fresh (tmps : List (Nat × Nat)) :
+    freshName tmps ≠ 0 ∧ ∀ p ∈ tmps, p.1 < freshName tmps := by
+  refine ⟨by simp [freshName], ?_⟩
+  have key : ∀ (l : List (Nat × Nat)) (m : Nat), m ≤ l.foldl (fun m p => max m p.1) m ∧
+      ∀ p ∈ l, p.1 ≤ l.foldl (fun m p => max m p.1) m := by
+    intro l
+    induction l with
+    | nil => intro m; simp
+    | cons x xs ih =>
+      intro m
+      obtain ⟨h1, h2⟩ := ih (max m x.1)
+      refine ⟨by simp only [List.foldl_cons]; omega, ?_⟩
+      intro p hp
+      simp only [List.mem_cons] at hp
+      simp only [List.foldl_cons]
+      rcases hp with rfl | hp
+      · omega
+      · exact h2 p hp
+  intro p hp
+  have := (key tmps 0).2 p hp
+  simp only [freshName]; omega
+
+/-- **symbolic-link stores: what the repaired code does** (an observation about the repair, not a defect of
+crash safety): `rename` replaces the link at the store path by a regular file holding the new set; the
+file the link pointed to keeps the old document. Every theorem above holds for link stores too (`FS.isLink`
+is unconstrained in them); the server itself always reads the store path, so it restarts on the new set. -/
+theorem symlink_store_link_replaced {U : Type} (C : Codec U) (hC : C.Lawful) (old new : U)
+    (prog : List Stmt) (hp : saveProg? = some prog) :
+    let r := finalRun (C.ser new) none none prog 0 (startRun (initLinkFS (C.ser old)))
+    r.err = false ∧ r.fs.isLink = false ∧ load C (afterKill r.fs) = some new ∧
+    r.fs.dest = some 0 ∧ r.fs.inodes[0]? = some ⟨C.ser old, true⟩ := by
+  have : prog = progTempRename := by
+    have := hp.symm.trans saveProg_is_tempRename; exact Option.some.inj this
+  subst this
+  have h := symlink_replaced (initLinkFS (C.ser old)) (C.ser old) (C.ser new) 0 true rfl rfl rfl rfl
+  refine ⟨h.1, h.2.1, ?_, h.2.2.2.1, h.2.2.2.2⟩
+  rw [h.2.2.1]; exact load_ser C hC new
 
 example (d : Bytes) : Quiescent (initFS d) d := quiescent_init d
-/-- a start state with an unrelated inode, a stale temporary file and an advanced counter -/
+/-- a start state with an unrelated inode, stale temporary files (also under the fixed name) and a symlinked store -/
 example : Quiescent
-    ({ inodes := [⟨[9], false⟩, ⟨[1, 0], true⟩, ⟨[1, 1], false⟩], target := some 1, thist := [some 1], tmps := [(4, 2)], next := 7 } : FS)
+    ({ inodes := [⟨[9], false⟩, ⟨[1, 0], true⟩, ⟨[1, 1], false⟩], target := some 1, thist := [some 1], tmps := [(4, 2), (0, 0)], isLink := true, dest := some 1 } : FS)
     [1, 0] := ⟨1, rfl, rfl, rfl⟩
 
 /-! ### the hypotheses are satisfiable, the quantifiers range over something -/
@@ -177,11 +231,11 @@ theorem toy_lawful : toyCodec.Lawful :=
 
 example : saveProg? = some progTempRename := saveProg_is_tempRename
 /-- the trace of a concrete save has 12 + 3·… states; among them one with a half-written temporary file -/
-example : ({ inodes := [⟨[1, 1, 0], true⟩, ⟨[1, 1], false⟩], target := some 0, thist := [some 0], tmps := [(0, 1)], next := 1 } : FS)
+example : ({ inodes := [⟨[1, 1, 0], true⟩, ⟨[1, 1], false⟩], target := some 0, thist := [some 0], tmps := [(1, 1)], isLink := false, dest := none } : FS)
     ∈ trace (toyCodec.ser 3) none progTempRename 0 (startRun (initFS (toyCodec.ser 2))) := by decide
 example : PostCrash (initFS [1, 0]) (some [1, 0]) := ⟨some 0, by simp [initFS], ⟨[1, 0], true⟩, rfl, [1, 0], rfl, fun _ => rfl⟩
 /-- a dirty file really can come back as anything -/
-example : PostCrash { inodes := [⟨[1, 0], false⟩], target := some 0, thist := [some 0], tmps := [], next := 0 } (some [7, 7, 7]) :=
+example : PostCrash { inodes := [⟨[1, 0], false⟩], target := some 0, thist := [some 0], tmps := [], isLink := false, dest := none } (some [7, 7, 7]) :=
   ⟨some 0, by simp, ⟨[1, 0], false⟩, rfl, [7, 7, 7], rfl, by simp⟩
 example : (finalRun (toyCodec.ser 3) (some (3, 2)) none progTempRename 0 (startRun (initFS (toyCodec.ser 2)))).err = true := by decide
 
@@ -270,6 +324,19 @@ theorem writeFile_crash_safe_partial (o n : Bytes) (fault : Fault) :
       afterKill fs = some o ∨ ∃ p, p <+: n ∧ afterKill fs = some p :=
   writeFile_kill_prefix o n fault
 
+/-- **fixed temporary name (`<store>.tmp`, O_EXCL) — what fails.** Each save alone is still atomic, but a save
+killed inside its write (after any `k` bytes) leaves the name behind: the store still shows the old set, and
+the next save — after the restart, with no fault whatsoever — fails with EEXIST; the store keeps the old
+set, the acknowledged change is not written. With `os.CreateTemp` this cannot happen (`kill_safe_history` (2)). -/
+theorem exclTmp_blocks_saves_after_crash {U : Type} (C : Codec U) (hC : C.Lawful) (old new new2 : U) (k : Nat) :
+    let fs1 := (finalRun (C.ser new) (some (3, k)) (some 3) progExclTmp 0 (startRun (initFS (C.ser old)))).fs
+    let r2 := finalRun (C.ser new2) none none progExclTmp 0 (startRun fs1)
+    load C (afterKill fs1) = some old ∧ r2.err = true ∧ load C (afterKill r2.fs) = some old := by
+  have h := exclTmp_stuck_after_crash (C.ser old) (C.ser new) (C.ser new2) k
+  refine ⟨?_, h.2.1, ?_⟩
+  · rw [h.1]; exact load_ser C hC old
+  · rw [h.2.2]; exact load_ser C hC old
+
 /-- **F14 witness.** Without the final look at the queue: change acknowledged, context cancelled, the first
 `select` takes `ctx.Done()`, the goroutine returns — `Stop` returns with the change not on disk. -/
 theorem noDrain_loses_acknowledged_change : ∃ s, Reach progNoDrain s ∧ s.exited = true ∧ s.disk < s.acked := by
@@ -291,6 +358,9 @@ end SSV.C20
 #print axioms SSV.C20.save_completes
 #print axioms SSV.C20.crash_safe_any_start
 #print axioms SSV.C20.kill_safe_history
+#print axioms SSV.C20.createTemp_name_fresh
+#print axioms SSV.C20.symlink_store_link_replaced
+#print axioms SSV.C20.exclTmp_blocks_saves_after_crash
 #print axioms SSV.C20.toy_lawful
 #print axioms SSV.C20.ack_saved_before_stop
 #print axioms SSV.C20.exit_only_after_cancel
